@@ -14,7 +14,7 @@ RULE = ('a started ActiveObject and 1-4 poster threads x 1-6 unique-id events (f
         'bounded-progress form only. distinct_nontrivial = distinct context-switch sequences (projected on thread roles and locations) of '
         'runs with >= 2 posters or >= 1 handler post')
 CASES = {'quick': 800, 'thorough': 60000}
-BUDGET = {'quick': 50, 'thorough': 1200}
+BUDGET = {'quick': 50, 'thorough': 300}
 REQUIRE = {'runs': 300, 'runs_with_racing_posters': 100, 'poster_between_token_put_and_append': 20, 'consumer_between_get_and_popleft': 20}
 ASSUME = ['"eventually" is restated as bounded progress under a fair suffix; unbounded liveness is out of reach of a finite run',
           'switches happen at line starts of the focus files and around (never inside) calls of real primitives']
